@@ -38,7 +38,9 @@ bool divides_upoly(const UIntPoly &a, const UIntPoly &b,
     integer_class q, r;
     unsigned int a_deg, b_deg;
 
-    while (b_poly.size() >= a_poly.size()) {
+    // long division while the remainder still reaches the divisor's degree
+    // (the number of terms says nothing about that for sparse polynomials)
+    while (not b_poly.empty() and b_poly.degree() >= a_poly.degree()) {
         a_deg = a_poly.degree();
         b_deg = b_poly.degree();
 
